@@ -114,7 +114,7 @@ package leanhelix
 //@   inv [O8.the-installed-term-is-wired-to-this-filter] (lh.filter.consensusMessagesHandler != nil ==> TermWired(dyn(lh.filter.consensusMessagesHandler, *leanhelixterm.LeanHelixTerm), lh.filter))
 //@   props C13 C14 C17
 //@   requires lh.state != nil && lh.filter != nil && lh.filter.state == lh.state && lh.filter.futureCache != nil && lh.state.Contexts != nil
-//@   requires [A-NONNIL.the-configured-spi-objects-are-present] lh.config != nil && lh.config.KeyManager != nil && lh.config.BlockUtils != nil && lh.config.Membership != nil && lh.electionTrigger != nil
+//@   requires [A-NONNIL.the-configured-spi-objects-are-present] lh.config != nil && lh.config.KeyManager != nil && lh.config.BlockUtils != nil && lh.config.Membership != nil && lh.config.Communication != nil && lh.electionTrigger != nil
 //@   requires [A-KM-SIGN] SignsAs(lh.config.KeyManager, lh.config.Membership.MyMemberId())
 //@   requires [built-by-NewWorkerLoop.the-filter-carries-this-node-id] lh.filter.myMemberId == lh.config.Membership.MyMemberId()
 //@   requires lastRoundHeight <= lh.state.height && lastCommitHeight <= lh.state.height && ndelivered >= 0
@@ -133,7 +133,7 @@ package leanhelix
 //@   inv [O8.the-installed-term-is-wired-to-this-filter] (lh.filter.consensusMessagesHandler != nil ==> TermWired(dyn(lh.filter.consensusMessagesHandler, *leanhelixterm.LeanHelixTerm), lh.filter))
 //@   props C13 C03
 //@   requires lh.state != nil && lh.filter != nil && lh.filter.state == lh.state && lh.filter.futureCache != nil && lh.state.Contexts != nil
-//@   requires [A-NONNIL.the-configured-spi-objects-are-present] lh.config != nil && lh.config.KeyManager != nil && lh.config.BlockUtils != nil && lh.config.Membership != nil && lh.electionTrigger != nil
+//@   requires [A-NONNIL.the-configured-spi-objects-are-present] lh.config != nil && lh.config.KeyManager != nil && lh.config.BlockUtils != nil && lh.config.Membership != nil && lh.config.Communication != nil && lh.electionTrigger != nil
 //@   requires [A-KM-SIGN] SignsAs(lh.config.KeyManager, lh.config.Membership.MyMemberId())
 //@   requires [built-by-NewWorkerLoop.the-filter-carries-this-node-id] lh.filter.myMemberId == lh.config.Membership.MyMemberId()
 //@   requires lastRoundHeight <= lh.state.height && ndelivered >= 0
@@ -149,7 +149,7 @@ package leanhelix
 //@   props C14 C13
 //@   requires receivedBlockWithProof != nil
 //@   requires lh.state != nil && lh.filter != nil && lh.filter.state == lh.state && lh.filter.futureCache != nil && lh.state.Contexts != nil
-//@   requires [A-NONNIL.the-configured-spi-objects-are-present] lh.config != nil && lh.config.KeyManager != nil && lh.config.BlockUtils != nil && lh.config.Membership != nil && lh.electionTrigger != nil
+//@   requires [A-NONNIL.the-configured-spi-objects-are-present] lh.config != nil && lh.config.KeyManager != nil && lh.config.BlockUtils != nil && lh.config.Membership != nil && lh.config.Communication != nil && lh.electionTrigger != nil
 //@   requires [A-KM-SIGN] SignsAs(lh.config.KeyManager, lh.config.Membership.MyMemberId())
 //@   requires [built-by-NewWorkerLoop.the-filter-carries-this-node-id] lh.filter.myMemberId == lh.config.Membership.MyMemberId()
 //@   requires lastRoundHeight <= lh.state.height && lastCommitHeight <= lh.state.height && ndelivered >= 0
@@ -172,7 +172,7 @@ package leanhelix
 //@   props C12 C13 C14 C16 C19
 //@   safety iface
 //@   requires ctx != nil && lh.state != nil && lh.filter != nil && lh.filter.state == lh.state && lh.filter.futureCache != nil && lh.state.Contexts != nil
-//@   requires [A-NONNIL.the-configured-spi-objects-are-present] lh.config != nil && lh.config.KeyManager != nil && lh.config.BlockUtils != nil && lh.config.Membership != nil && lh.electionTrigger != nil
+//@   requires [A-NONNIL.the-configured-spi-objects-are-present] lh.config != nil && lh.config.KeyManager != nil && lh.config.BlockUtils != nil && lh.config.Membership != nil && lh.config.Communication != nil && lh.electionTrigger != nil
 //@   requires [A-KM-SIGN] SignsAs(lh.config.KeyManager, lh.config.Membership.MyMemberId())
 //@   requires [built-by-NewWorkerLoop.the-filter-carries-this-node-id] lh.filter.myMemberId == lh.config.Membership.MyMemberId()
 //@   requires lastRoundHeight <= lh.state.height && lastCommitHeight <= lh.state.height && ndelivered >= 0
@@ -181,7 +181,7 @@ package leanhelix
 //@   loop for
 //@     invariant [frame] lh.state == old(lh.state) && lh.filter == old(lh.filter) && lh.filter.state == lh.state && lh.filter.futureCache == old(lh.filter.futureCache) && lh.state.Contexts == old(lh.state.Contexts)
 //@     invariant [filter-id-frame] lh.filter.myMemberId == old(lh.filter.myMemberId)
-//@     invariant [config-frame] lh.config == old(lh.config) && lh.config.KeyManager == old(lh.config.KeyManager) && lh.config.BlockUtils == old(lh.config.BlockUtils) && lh.config.Membership == old(lh.config.Membership) && lh.electionTrigger == old(lh.electionTrigger)
+//@     invariant [config-frame] lh.config == old(lh.config) && lh.config.KeyManager == old(lh.config.KeyManager) && lh.config.BlockUtils == old(lh.config.BlockUtils) && lh.config.Membership == old(lh.config.Membership) && lh.config.Communication == old(lh.config.Communication) && lh.electionTrigger == old(lh.electionTrigger)
 //@     invariant [O17.the-installed-term-is-the-term-of-the-current-height] (lh.filter.consensusMessagesHandler != nil ==> TermHeightOf(dyn(lh.filter.consensusMessagesHandler, *leanhelixterm.LeanHelixTerm)) == lh.state.height)
 //@     invariant [O8.the-installed-term-is-wired-to-this-filter] (lh.filter.consensusMessagesHandler != nil ==> TermWired(dyn(lh.filter.consensusMessagesHandler, *leanhelixterm.LeanHelixTerm), lh.filter))
 //@     invariant [O13.heights-stay-ordered] lastRoundHeight <= lh.state.height && lastCommitHeight <= lh.state.height && ndelivered >= 0 && lh.state.height >= old(lh.state.height)
@@ -252,12 +252,12 @@ package leanhelix
 // starting: the worker is built and both loops are handed to the supervisor only with their preconditions in place
 //@ pred MainReady(m *MainLoop, ctx context.Context) = m.worker != nil && m.state != nil && m.state.Contexts != nil && m.worker.state == m.state && m.electionScheduler != nil && ctx != nil && cap(m.worker.workerUpdateStateChannel) > 0 && cap(m.worker.electionChannel) > 0
 //@ pred WorkerReady(lh *WorkerLoop, ctx context.Context) = ctx != nil && lh.state != nil && lh.filter != nil && lh.filter.state == lh.state && lh.filter.futureCache != nil && lh.state.Contexts != nil
-//@   | && lh.config != nil && lh.config.KeyManager != nil && lh.config.BlockUtils != nil && lh.config.Membership != nil && lh.electionTrigger != nil
+//@   | && lh.config != nil && lh.config.KeyManager != nil && lh.config.BlockUtils != nil && lh.config.Membership != nil && lh.config.Communication != nil && lh.electionTrigger != nil
 //@   | && (forall k int :: !has(lh.filter.futureCache, k)) && lh.filter.consensusMessagesHandler == nil
 //@   | && lh.filter.myMemberId == lh.config.Membership.MyMemberId()
 //@ func (*MainLoop).Run
 //@   props C12 C13
-//@   requires [A-NONNIL.the-consumer-configured-its-spi] m.config != nil && m.config.KeyManager != nil && m.config.BlockUtils != nil && m.config.Membership != nil && ctx != nil
+//@   requires [A-NONNIL.the-consumer-configured-its-spi] m.config != nil && m.config.KeyManager != nil && m.config.BlockUtils != nil && m.config.Membership != nil && m.config.Communication != nil && ctx != nil
 //@   requires [built-by-NewLeanHelix] m.state != nil && m.state.Contexts != nil && m.electionScheduler != nil
 //@   modifies leanhelix.MainLoop.worker
 //@   assert before call runMainLoop [O12.the-main-loop-is-started-with-its-precondition-established] MainReady(m, ctx)
